@@ -510,6 +510,7 @@ func TestVerif(t *testing.T) {
 		if r.Quick() {
 			pool = pool[:8]
 		}
+		pool = append(pool[:len(pool):len(pool)], []string{}) // a route without any host pattern: never matches, never hides a later route
 		rhosts := allSeq(hostSyms, 3)
 		var lists [][][]string
 		for n := 1; n <= 3; n++ {
@@ -584,6 +585,7 @@ func TestVerif(t *testing.T) {
 
 		// ---- part 4: two-digit parameters; part 5: the real entry points and what they dial
 		runSubst10Part(r)
+		runMetaPart(r)
 		runEntryPart(r)
 	})
 }
